@@ -866,8 +866,13 @@ struct Extractor {
       o += "{\"name\":" + jstr(P->getNameAsString()) + ",\"type\":" + jstr(typeStr(T));
       if (T->isIntegralOrEnumerationType())
         o += ",\"bits\":" + std::to_string(Ctx.getTypeSize(T)) + ",\"signed\":" + (T->isSignedIntegerOrEnumerationType() ? "true" : "false");
+      // `T name[N]` parameters: the declared (documentary) array length
+      if (const ConstantArrayType *OCAT = Ctx.getAsConstantArrayType(P->getOriginalType()))
+        o += ",\"orig_dim\":" + llvm::toString(OCAT->getSize(), 10, false);
       if (T->isPointerType()) {
         QualType PT = T->getPointeeType();
+        if (PT->isIntegralOrEnumerationType())
+          o += ",\"pbits\":" + std::to_string(Ctx.getTypeSize(PT)) + ",\"psigned\":" + (PT->isSignedIntegerOrEnumerationType() ? "true" : "false");
         o += ",\"ptr\":true,\"pointee_const\":" + std::string(PT.isConstQualified() ? "true" : "false");
         if (const RecordDecl *RD = PT->getAsRecordDecl())
           o += ",\"record\":" + jstr(recName(RD));
